@@ -12,6 +12,9 @@ import oracles
 import projects
 
 
+MODEL_WHAT = "the implementation's schedule differs from the reference list scheduler"
+
+
 def load_corpus(prop):
     out = []
     for f in sorted(glob.glob(os.path.join(common.VERIF, "corpus", prop, "*.json"))):
@@ -82,7 +85,7 @@ def remove_task(ap, path):
 
 
 def run(ctx, prop, props_files, fams, oracle_names, assumptions, level_rule, model=True, extra_cases=None, extra_oracle=None,
-        post=None):
+        post=None, model_is_oracle=False):
     nob, ndis, failing, files = common.obligations(ctx, props_files)
     aps = load_corpus(prop)
     ncorp = len(aps)
@@ -97,6 +100,7 @@ def run(ctx, prop, props_files, fams, oracle_names, assumptions, level_rule, mod
     bad, dis, known_lines = [], [], []
     stats = Counter()
     ncore = 0
+    model_pairs = []
     for ap, r in zip(aps, res):
         stats["family:" + str(ap.get("_family"))] += 1
         if "worker_error" in r or not r.get("ok"):
@@ -120,17 +124,20 @@ def run(ctx, prop, props_files, fams, oracle_names, assumptions, level_rule, mod
                 for f in extra_oracle(ap, obs, sc, r):
                     bad.append((ap, f, r))
         if model:
-            d, why = projects.compare_model(ap, obs)
-            if d is None:
-                d, why = projects.compare_sd(ap, obs)          # second-granularity model (Model/SubSlot.v)
-                if d is not None:
-                    stats["model:subslot"] += 1
+            model_pairs.append((ap, obs, r))
+    if model and model_pairs:
+        for (ap, obs, r), (d, why, kind) in zip(model_pairs, projects.compare_many([(a, o) for a, o, _ in model_pairs])):
             if d is None:
                 stats["model:outside_dialect"] += 1
-            else:
-                ncore += 1
-                if d:
-                    dis.append({"project": projects.render(ap), "disagreements": d[:4], "family": ap.get("_family"), "i": ap.get("_i")})
+                continue
+            ncore += 1
+            if kind == "second":
+                stats["model:subslot"] += 1
+            if d and model_is_oracle:
+                # the model IS the reference the property names (C07): a disagreement is the failing input
+                bad.append((ap, {"what": MODEL_WHAT, "disagreements": d[:4]}, r))
+            elif d:
+                dis.append({"project": projects.render(ap), "disagreements": d[:4], "family": ap.get("_family"), "i": ap.get("_i")})
     if post:
         pb, pstats = post(ctx, aps, res)
         bad += pb
@@ -160,6 +167,10 @@ def run(ctx, prop, props_files, fams, oracle_names, assumptions, level_rule, mod
                 out += oracles.c11(cand, rr) if name == "c11" else getattr(oracles, name)(cand, o, o["scenarios"][0])
             if extra_oracle:
                 out += extra_oracle(cand, o, o["scenarios"][0], rr)
+            if model_is_oracle:
+                dd, _ = projects.compare_model(cand, o)
+                if dd:
+                    out.append({"what": MODEL_WHAT})
             return any(x["what"] == what for x in out)
         small = ap
         is_project = "dur" in ap
